@@ -905,6 +905,7 @@ class UserCellsImpl(CellsImpl):
         oldsrc = self.formula.source
         newsrc = self.formula._reload(module).source
         if oldsrc != newsrc:
+            self.parent.clear_subs_rootitems()  # ItemSpaces hold a copy
             self.model.clear_obj(self)
             self.altfunc.notify()
             # the cells derived from this one share the formula object
